@@ -21,8 +21,9 @@ Open Scope N_scope.
 (* ------------------------------------------------------------------ documents *)
 Record aref := mk_aref { a_stage : N; a_prod : string; a_file : string; a_meth : string }.
 
-(* a reference inside the DoWhile document: to a binding name  b[/file]:meth  or to a looped component
-   [stageJ.]name[/file]:meth  (stage relative to the document; None = the stage of the referencing component) *)
+(* a reference inside the DoWhile document: to a binding name  b[/file]:meth  or to a component
+   [stageJ.]name[/file]:meth  (stage relative to the document; None = the stage of the referencing component): the
+   looped component with that stage AND name, or else a component outside the loop (in a stage of the loop) *)
 Inductive ref :=
   | RBind (b file meth : string)
   | RComp (st : option N) (name file meth : string).
@@ -212,6 +213,17 @@ Definition graph_edges (w : wfst) : list (string * string) :=
    flat_map (fun x => map (fun p => (p, inst_node x))
                          (filter (fun p => mem p ns) (flat_map (ref_preds w (inst_node x)) (i_refs x)))) (w_loop w))%list.
 
+(* Controller._comp_get_active_predecessors(<placeholder>): a COPY of the placeholder's 'represents' list, plus the
+   component that produces the current condition of the loop when it is not already listed (nothing is done yet in
+   the runs considered, so every predecessor is active).  The same list is what generate_status_report_for_nodes
+   (Controller.initialise: "Initial dependency analysis") prints for a placeholder. *)
+Definition ph_preds (w : wfst) (p : N * string) : list string :=
+  let reps := map inst_node (represents (w_loop w) p) in
+  match cur_cond_inst w with
+  | Some x => if mem (inst_node x) reps then reps else (reps ++ [inst_node x])%list
+  | None => reps
+  end.
+
 Definition edge_eqb (a b : string * string) : bool := String.eqb (fst a) (fst b) && String.eqb (snd a) (snd b).
 Definition add_edges (old new : list (string * string)) : list (string * string) :=
   fold_left (fun acc e => if existsb (edge_eqb e) acc then acc else (acc ++ [e])%list) new old.
@@ -262,7 +274,10 @@ Record obs := mk_obs {
   ob_ph : list (string * (string * list string));          (* placeholder -> latest, represents *)
   ob_state : string * N;                                   (* currentCondition, currentIteration *)
   ob_resolve : list string;                                (* references of the outside consumers, in order *)
-  ob_map : list (option string)                            (* map_placeholder_id_to_iteration per looped component *)
+  ob_map : list (option string);                           (* map_placeholder_id_to_iteration per looped component *)
+  (* what the real Controller reports per placeholder when it drove the iterations (empty otherwise):
+     active producers (_comp_get_active_predecessors), all / latest true nodes (_true_nodes_from_identifiers) *)
+  ob_ctl : list (string * (list string * (list string * list string)))
 }.
 
 Definition set_eqb (a b : list string) : bool :=
@@ -316,7 +331,17 @@ Definition check_obs (kk : keykind) (w : wfst) (o : obs) : bool :=
   (* resolve *)
   list_eqb (flat_map (fun oc => map (resolve kk w) (o_refs oc)) (w_out w)) (ob_resolve o) &&
   (* map_placeholder_id_to_iteration *)
-  olist_eqb (map (fun c => map_latest kk w (comp_id (d_stage d) c)) (d_comps d)) (ob_map o).
+  olist_eqb (map (fun c => map_latest kk w (comp_id (d_stage d) c)) (d_comps d)) (ob_map o) &&
+  (* the Controller's view of the placeholders (after its read-only inspections) *)
+  (match ob_ctl o with [] => true | _ => Nat.eqb (length (ob_ctl o)) (length (d_comps d)) end) &&
+  forallb (fun e =>
+    match filter (fun c => String.eqb (pr_id (fst (comp_id (d_stage d) c)) (snd (comp_id (d_stage d) c))) (fst e)) (d_comps d) with
+    | c :: _ => let p := comp_id (d_stage d) c in
+                set_eqb (ph_preds w p) (fst (snd e)) &&
+                set_eqb (map inst_node (represents (w_loop w) p)) (fst (snd (snd e))) &&
+                list_eqb (match latest kk w p with Some x => [inst_node x] | None => [] end) (snd (snd (snd e)))
+    | [] => false
+    end) (ob_ctl o).
 
 Record case := mk_case { k_doc : dowhile; k_out : list ocomp; k_k : nat; k_obs : obs }.
 
